@@ -821,11 +821,12 @@ func (e *Exec) strChars(x *Node) *Node {
 }
 
 func (e *Exec) execInstr(s *State, ins ssa.Instruction) {
-	if len(s.privObjs) > 0 {
-		e.noteEscapes(s, ins)
-	}
 	if specs := e.siteAsserts[ins]; len(specs) > 0 {
 		e.runSiteSpecs(s, ins, specs, true)
+	}
+	// (after the "before" sites: an object handed to this very call is still private before it)
+	if len(s.privObjs) > 0 {
+		e.noteEscapes(s, ins)
 	}
 	switch x := ins.(type) {
 	case *ssa.Alloc:
